@@ -65,6 +65,11 @@ CHECKS = {
                      "container) + pure solvent, residuals + new = inputs + added solvent, refusal iff the independent "
                      "2x2 system has no solution with 0 <= stock share <= 1 and solvent >= 0; 8 stock/solvent variants x "
                      "11 concentration spellings x 6 quantity units."),
+    'C07': dict(engine=E1, design='§4 C07',
+                technique="symbolic execution of plate/slice operations vs the fold of the stand-alone Container operation (same engine), term-for-term; z3 for path feasibility",
+                text="for transfer (15 geometries), remove and fill_to (9 selection forms), directly and as recipe steps: every "
+                     "addressed well equals the stand-alone operation on a free-standing copy, every other well is "
+                     "identical to the input; 12 non-conforming shape pairs are rejected with ValueError."),
     'C02': dict(engine=E1, design='§4 C02',
                 technique="symbolic execution of Container.transfer/Plate.transfer with z3 (QF_NRA/LRA), differential vs independent unit table",
                 text="size of the aliquot (in the unit of q), uniformity (cross-multiplied ratios) and destination gain "
